@@ -177,8 +177,18 @@ def run(ctx):
                 raise AnalysisError(f"anchor {g}.{mod} missing")
             for e in sh.entries:
                 outs, _, _ = LF.lift_entry(e)
-                got = _predicate_set(LF, g, e, outs[0])
                 kind, kappa, text = DOC[mod]
+                try:
+                    got = _predicate_set(LF, g, e, outs[0])
+                except AnalysisError as err:
+                    # outside the linear shape: refute against the documented predicate on a grid of the lifted symbols, else give up (exit 2)
+                    w = _predicate_counterexample(g, e, outs[0], (kind, (Fraction(kappa[0]), Fraction(kappa[1]))))
+                    if w is None:
+                        raise
+                    ctx.ob("C13.predicate-shape", e.name, False,
+                           f"predicate is {w['got']} at {w['at']} where the documented predicate ({text}, A = |tolerance|) is {w['want']}; {err}",
+                           w, fn_where(e.fn))
+                    continue
                 ok = got[0] == kind and got[1] == (Fraction(kappa[0]), Fraction(kappa[1]))
                 ctx.ob("C13.predicate-shape", e.name, ok,
                        f"predicate holds on {_show_set(got)}; documented: {text}",
@@ -361,6 +371,47 @@ def _predicate_set(LF, g, e, node):
     else:
         kind = "outside" if use_abs else "above"
     return (kind, kappa)
+
+
+def _predicate_counterexample(g, e, node, doc):
+    """evaluate the lifted predicate (point semantics of the IR; lifted symbols are free variables) against the documented one"""
+    from .. import denote
+
+    two = len(e.ops) == 2
+    syms = {x.a[0] for x in ir.walk(node) if x.kind == "sym"}
+    params = {x.a[0] for x in ir.walk(node) if x.kind == "param"}
+    if two:
+        normname = {"planar": "planar.rho", "spatial": "spatial.mag"}[g]
+        known = {(f"{g}.dot", (1, 2)), (normname, (1,)), (normname, (2,))}
+    else:
+        known = {("lorentz.dot", (1, 1)), ("lorentz.tau2", (1,))}
+    if not syms <= known or not params <= {"extra0"}:
+        return None
+    xs = [-1.0, -0.999995, -0.9, -0.5, -0.05, -2e-6, 0.0, 2e-6, 0.05, 0.5, 0.9, 0.999995, 1.0] if two else [-1.0, -0.05, -2e-6, -1e-12, 0.0, 1e-12, 2e-6, 0.05, 1.0]
+    for tol in (0.0, 1e-5, 0.1, -0.1, -1e-5, 0.3):
+        A = abs(tol)
+        iv = _intervals(doc, Fraction(A).limit_denominator(10**9))
+        for x in xs:
+            # stay away from the documented boundaries (open/closed endpoints are not distinguished)
+            if any(abs(x - float(b)) < 1e-9 for lo, hi in iv for b in (lo, hi) if b not in (INF, -INF)):
+                continue
+            want = any((lo == -INF or float(lo) < x) and (hi == INF or x < float(hi)) for lo, hi in iv)
+            for w1, w2 in (((1.3, 0.7),) if two else ((1.0, 1.0),)):
+                env = {"extra0": tol}
+                if two:
+                    env[(f"{g}.dot", (1, 2))] = x * w1 * w2
+                    env[(normname, (1,))] = w1
+                    env[(normname, (2,))] = w2
+                else:
+                    env[("lorentz.dot", (1, 1))] = x
+                    env[("lorentz.tau2", (1,))] = x
+                try:
+                    got = bool(denote.numeric(node, env))
+                except (KeyError, ValueError, ZeroDivisionError, OverflowError, TypeError):
+                    return None
+                if got != want:
+                    return {"got": got, "want": want, "at": {"cos" if two else "tau2": x, "tolerance": tol}}
+    return None
 
 
 def _show_set(s):
